@@ -175,6 +175,43 @@ type CSItem struct {
 
 func (CSItem) TableName() string { return "cs_items" }
 
+// DItem / DSItem: fields with a literal `default:` tag. Their zero values are zero
+// fields all the same: an all-zero struct of these types is no condition.
+type DItem struct {
+	ID   int `gorm:"primaryKey"`
+	Ca   int
+	Cb   int
+	Cs   string
+	Cn   *int
+	Ct   *string
+	Cor  int
+	Band string
+	Mark int
+	Flag bool   `gorm:"default:true"`
+	Num  int    `gorm:"default:5"`
+	Str  string `gorm:"default:x"`
+}
+
+func (DItem) TableName() string { return "d_items" }
+
+type DSItem struct {
+	ID        int `gorm:"primaryKey"`
+	Ca        int
+	Cb        int
+	Cs        string
+	Cn        *int
+	Ct        *string
+	Cor       int
+	Band      string
+	Mark      int
+	DeletedAt gorm.DeletedAt
+	Flag      bool   `gorm:"default:true"`
+	Num       int    `gorm:"default:5"`
+	Str       string `gorm:"default:x"`
+}
+
+func (DSItem) TableName() string { return "ds_items" }
+
 type modelKind struct {
 	Name    string
 	Spec    cond.TableSpec
@@ -222,19 +259,21 @@ func (m modelKind) EmptySlicePtr() interface{} {
 func (m modelKind) soft() bool { return m.Spec.Soft || len(m.Spec.SoftCols) > 0 }
 
 var models = map[string]modelKind{
-	"plain":        {Name: "plain", Spec: cond.TableSpec{Name: "items"}, Type: reflect.TypeOf(cond.Item{})},
-	"soft":         {Name: "soft", Spec: cond.TableSpec{Name: "s_items", Soft: true}, Type: reflect.TypeOf(SItem{})},
-	"soft2":        {Name: "soft2", Spec: cond.TableSpec{Name: "s2_items", SoftCols: []string{"deleted_at", "archived_on"}}, Type: reflect.TypeOf(S2Item{})},
-	"softcol":      {Name: "softcol", Spec: cond.TableSpec{Name: "sc_items", SoftCols: []string{"removed_on"}}, Type: reflect.TypeOf(SCItem{})},
-	"softemb":      {Name: "softemb", Spec: cond.TableSpec{Name: "se_items", Soft: true}, Type: reflect.TypeOf(SEItem{})},
-	"soft2emb":     {Name: "soft2emb", Spec: cond.TableSpec{Name: "sp_items", SoftCols: []string{"deleted_at", "hist_deleted_at"}}, Type: reflect.TypeOf(SPItem{})},
-	"appkey":       {Name: "appkey", Spec: cond.TableSpec{Name: "k_items"}, Type: reflect.TypeOf(KItem{}), ZeroRow: true},
-	"appkey-soft":  {Name: "appkey-soft", Spec: cond.TableSpec{Name: "ks_items", Soft: true}, Type: reflect.TypeOf(KSItem{}), ZeroRow: true},
-	"compkey":      {Name: "compkey", Spec: cond.TableSpec{Name: "c_items", Extra: []string{"k2"}}, Type: reflect.TypeOf(CItem{}), ZeroRow: true},
-	"compkey-soft": {Name: "compkey-soft", Spec: cond.TableSpec{Name: "cs_items", Soft: true, Extra: []string{"k2"}}, Type: reflect.TypeOf(CSItem{}), ZeroRow: true},
+	"plain":         {Name: "plain", Spec: cond.TableSpec{Name: "items"}, Type: reflect.TypeOf(cond.Item{})},
+	"soft":          {Name: "soft", Spec: cond.TableSpec{Name: "s_items", Soft: true}, Type: reflect.TypeOf(SItem{})},
+	"soft2":         {Name: "soft2", Spec: cond.TableSpec{Name: "s2_items", SoftCols: []string{"deleted_at", "archived_on"}}, Type: reflect.TypeOf(S2Item{})},
+	"softcol":       {Name: "softcol", Spec: cond.TableSpec{Name: "sc_items", SoftCols: []string{"removed_on"}}, Type: reflect.TypeOf(SCItem{})},
+	"softemb":       {Name: "softemb", Spec: cond.TableSpec{Name: "se_items", Soft: true}, Type: reflect.TypeOf(SEItem{})},
+	"soft2emb":      {Name: "soft2emb", Spec: cond.TableSpec{Name: "sp_items", SoftCols: []string{"deleted_at", "hist_deleted_at"}}, Type: reflect.TypeOf(SPItem{})},
+	"appkey":        {Name: "appkey", Spec: cond.TableSpec{Name: "k_items"}, Type: reflect.TypeOf(KItem{}), ZeroRow: true},
+	"appkey-soft":   {Name: "appkey-soft", Spec: cond.TableSpec{Name: "ks_items", Soft: true}, Type: reflect.TypeOf(KSItem{}), ZeroRow: true},
+	"compkey":       {Name: "compkey", Spec: cond.TableSpec{Name: "c_items", Extra: []string{"k2"}}, Type: reflect.TypeOf(CItem{}), ZeroRow: true},
+	"defaults":      {Name: "defaults", Spec: cond.TableSpec{Name: "d_items", Extra: []string{"flag", "num", "str"}}, Type: reflect.TypeOf(DItem{})},
+	"defaults-soft": {Name: "defaults-soft", Spec: cond.TableSpec{Name: "ds_items", Soft: true, Extra: []string{"flag", "num", "str"}}, Type: reflect.TypeOf(DSItem{})},
+	"compkey-soft":  {Name: "compkey-soft", Spec: cond.TableSpec{Name: "cs_items", Soft: true, Extra: []string{"k2"}}, Type: reflect.TypeOf(CSItem{}), ZeroRow: true},
 }
 
-var modelNames = []string{"plain", "soft", "soft2", "softcol", "softemb", "soft2emb", "appkey", "appkey-soft", "compkey", "compkey-soft"}
+var modelNames = []string{"plain", "soft", "soft2", "softcol", "softemb", "soft2emb", "appkey", "appkey-soft", "compkey", "compkey-soft", "defaults", "defaults-soft"}
 
 // basic models are enumerated to the full length, the variants one call shorter
 func basicModel(n string) bool { return n == "plain" || n == "soft" }
